@@ -74,7 +74,7 @@ Definition v_hist (x : list float) (lo hi : option float) (m : mode)
 (* contract monitor of C05_model_meets_spec on this input (true when the model rejects it) *)
 Definition monitor (x : list float) (lo hi : option float) (m : mode) : bool :=
   match histogram EngC x lo hi m with
-  | Ok o => contracts_b x lo hi o
+  | Ok o => contracts_b x lo hi o || contracts_w_b x lo hi o
   | Err _ => true
   end.
 
@@ -114,10 +114,10 @@ Definition v_hist_api (a : api) (x : list float) (lo hi : option float) (k : kw)
       verdict (result_eqb arrays_eqb r outc && result_eqb arrays_eqb r outpy) (result_eqb arrays_eqb outc outpy)
   end.
 
-(* inside the domain of C05_holds_finite_all: there the contracts are theorems, not monitored facts *)
+(* inside the domain of C05_holds_finite_total: there the contracts are theorems, not monitored facts *)
 Definition proved_domain (x : list float) (lo hi : option float) (m : mode) : bool :=
   forallb finite_f x && finite_opt lo && finite_opt hi &&
-  match histogram EngC x lo hi m with Ok o => spec_ok (o_params o) | Err _ => false end.
+  match histogram EngC x lo hi m with Ok o => spec_ok2 (o_params o) | Err _ => false end.
 
 (* 0: contracts hold (monitored), outside the proved domain or rejected input;
    2: contracts hold and the input is inside the proved domain; 1: a contract fails *)
